@@ -18,7 +18,7 @@ from ..streams import SimTextSource, SimTextSink, SimRawSource, SimRawSink, StdS
 ID = 'C15'
 LEVEL = 'fault_enumeration'
 TIERS = {
-    'quick': {'runs': 16000, 'deadline_s': 90, 'chunk': 25},
+    'quick': {'runs': 11000, 'deadline_s': 100, 'chunk': 25},
     'thorough': {'runs': 400000, 'deadline_s': 1200, 'chunk': 50},
 }
 RULE = ('one run = one sampled scenario (query shape x front-end x dialect x knobs) whose fault points are enumerated: pipe family: sink breaks at every '
@@ -187,7 +187,7 @@ def generate(rng, tier, idx):
             sc['color'] = False
         if front == 'cli':
             sc['out_format'] = rng.choice(['input', 'input', 'csv', 'tsv'])
-    if family == 'badbyte' and rng.random() < 0.12:
+    if (family == 'badbyte' and rng.random() < 0.12) or (family == 'pipe' and front != 'stream' and rng.random() < 0.1):
         # input well beyond TextIOWrapper's 8 KiB chunk: the damaged byte may sit in a later chunk
         lines = sc['in_text'].split('\n')
         body = [l for l in lines[(1 if with_headers else 0):] if l]
@@ -384,6 +384,8 @@ def run_once(sc, fault):
     Sim.log = log
     sink_cfg = sc.get('sink') or {}
     Sim.knobs = {'tw_chunk': sink_cfg.get('tw_chunk')}
+    if fault and fault.get('kind') == 'real_pipe_reader_gone':
+        Sim.knobs = {'tw_chunk': None}    # the real thing: CPython's default sizes everywhere
     obs = {'outcome': None, 'out': None, 'stderr': '', 'leaked': [], 'fired': False}
     front = sc['front']
     try:
@@ -593,7 +595,7 @@ def _run_process(t, sc, fault, obs):
     budget = fault['budget'] if fault and fault['kind'] == 'sink_break_bytes' else None
     if sc.get('file_budget') is not None:
         budget = sc['file_budget']
-    out_raw = SimRawSink(budget, log=Sim.log)
+    out_raw = SimRawSink(budget, log=Sim.log, atomic=bool(sc.get('sink', {}).get('atomic')))
     stdout = None
     to_file = sc.get('out_to') == 'file'
     if to_file:
@@ -604,6 +606,13 @@ def _run_process(t, sc, fault, obs):
                 tracker.substitutes[out_path] = sub_out
     else:
         stdout = StdShape(io.BufferedWriter(out_raw, buffer_size=max(1, sc['sink'].get('bufsize', 8192))))
+    real_pipe_w = None
+    if fault and fault['kind'] == 'real_pipe_reader_gone' and not to_file:
+        # `rbql ... | true`: a real OS pipe whose reader has already gone, opened the way CPython opens
+        # sys.stdout (io.open on the descriptor: TextIOWrapper over BufferedWriter over FileIO, buffer size from fstat). Deterministic: every raw write fails with EPIPE.
+        pr, real_pipe_w = os.pipe()
+        os.close(pr)
+        stdout = open(real_pipe_w, 'w', encoding='utf-8', closefd=True)   # as create_stdio() does: buffer size taken from fstat (4096 for a pipe)
     argv = None
     db_path = None
     if front in ('sqlite', 'sqlite_cli'):
@@ -653,14 +662,35 @@ def _run_process(t, sc, fault, obs):
                 con.close()
         obs['leaked'] = tracker.leaked()
         obs['stdout_closed_by_writer'] = bool(seam.stdout.closed)
+        if real_pipe_w is not None:
+            # What Py_FinalizeEx does first, before any garbage collection: flush_std_files(). If sys.stdout is still open and
+            # flushing it hits the broken pipe, the interpreter prints "Exception ignored ... BrokenPipeError" and exits with 120.
+            try:
+                if not seam.stdout.closed:
+                    seam.stdout.flush()
+            except BrokenPipeError:
+                obs['exit_flush_fails'] = True
+            except ValueError:
+                pass
         obs['stderr'] = seam.stderr.getvalue()
         obs['opened'] = [[os.path.basename(str(p)), m] for p, m, _h in tracker.handles]
         if stdout is None and seam.default_out_raw is not None and not to_file:
             out_raw = seam.default_out_raw
     tracker.close_all()
+    if real_pipe_w is not None:
+        try:
+            stdout.close()
+        except (BrokenPipeError, ValueError, OSError):
+            pass
+        try:
+            os.close(real_pipe_w)
+        except OSError:
+            pass
     seam.restore_hook()
     obs['unraisable'] = len(seam.unraisable)
     obs['warnings'] = warnings
+    if real_pipe_w is not None:
+        obs['real_pipe'] = True
     if to_file and out_path not in tracker.substitutes:
         try:
             with open(out_path, 'rb') as f:
@@ -669,7 +699,7 @@ def _run_process(t, sc, fault, obs):
             obs['out'] = None
     else:
         obs['out'] = bytes(out_raw.accepted).hex()
-    obs['fired'] = out_raw.raised > 0
+    obs['fired'] = out_raw.raised > 0 or real_pipe_w is not None
     obs['sink_raises'] = out_raw.raised
     if fault and fault['kind'] == 'bad_byte':
         raw = raws.get(fault['where'])
@@ -703,6 +733,8 @@ def check_pipe(sc, fault, obs, full):
         return ('pipe_escape', {'outcome': obs['outcome'], 'where': obs.get('where'), 'line': obs.get('where_line'), 'stderr': obs.get('stderr', '')[-300:]})
     if not str(full['out']).startswith(str(obs['out'])):
         return ('pipe_prefix', {'emitted': obs['out'], 'full': full['out']})
+    if obs.get('exit_flush_fails'):
+        return ('pipe_exit_status', {'note': 'sys.stdout left open with unflushable data: the interpreter would report BrokenPipeError at exit (status 120)'})
     if obs['first_fail'] and (obs['pulls_after_fail'] > 1 or obs['writes_after_fail'] > 1):
         return ('pipe_not_prompt', {'pulls_after_fail': obs['pulls_after_fail'], 'writes_after_fail': obs['writes_after_fail']})
     return None
@@ -787,7 +819,10 @@ def fault_points(sc, full):
         nbytes = len(full['out']) // 2
         stride = 1 if nbytes <= 80 else max(1, nbytes // 60)
         pts = list(range(0, nbytes, stride)) + [max(0, nbytes - 1)]
-        return [{'kind': 'sink_break_bytes', 'budget': b} for b in sorted(set(pts))]
+        out = [{'kind': 'sink_break_bytes', 'budget': b} for b in sorted(set(pts))]
+        if sc['front'] != 'stream' and sc.get('out_to') == 'stdout':
+            out.append({'kind': 'real_pipe_reader_gone'})
+        return out
     if fam == 'badbyte':
         bad = sc['bad']
         text = sc['join_text'] if bad['where'] == 'join' else sc['in_text']
@@ -884,7 +919,7 @@ def execute(sc):
         digest_parts.append([fault, obs['outcome'], obs['out']])
         v = check_handles(obs)
         if not v:
-            if fault['kind'] in ('sink_break_call', 'sink_break_bytes'):
+            if fault['kind'] in ('sink_break_call', 'sink_break_bytes', 'real_pipe_reader_gone'):
                 v = check_pipe(sc, fault, obs, full)
                 if obs['fired'] and obs['first_fail']:
                     bump(counters, 'probe.break_inside_write')
